@@ -873,6 +873,9 @@ fn parse_json_filter(input: &[u8], output: &mut [u8]) -> Result<(usize, usize), 
             if input[inpos] == b']' {
                 break;
             }
+            if output.len() < end {
+                return Err(InnerError::BufferTooSmall(end + ID_SIZE).into());
+            }
             read_id(input, &mut inpos, &mut output[end..])?;
             num_ids += 1;
             end += ID_SIZE;
@@ -897,6 +900,9 @@ fn parse_json_filter(input: &[u8], output: &mut [u8]) -> Result<(usize, usize), 
             eat_whitespace_and_commas(input, &mut inpos);
             if input[inpos] == b']' {
                 break;
+            }
+            if output.len() < end {
+                return Err(InnerError::BufferTooSmall(end + PUBKEY_SIZE).into());
             }
             read_pubkey(input, &mut inpos, &mut output[end..])?;
             num_authors += 1;
@@ -973,8 +979,8 @@ fn parse_json_filter(input: &[u8], output: &mut [u8]) -> Result<(usize, usize), 
             let countindex = end;
             end += 2;
             put(output, end, 1_u16.to_ne_bytes().as_slice())?;
-            if output.len() < end + 2 {
-                return Err(InnerError::BufferTooSmall(end + 2).into());
+            if output.len() < end + 3 {
+                return Err(InnerError::BufferTooSmall(end + 3).into());
             }
             output[end + 2] = letter;
 
@@ -995,6 +1001,9 @@ fn parse_json_filter(input: &[u8], output: &mut [u8]) -> Result<(usize, usize), 
                 }
                 verify_char(input, b'"', &mut inpos)?;
                 // copy  data
+                if output.len() < end + 2 {
+                    return Err(InnerError::BufferTooSmall(end + 2).into());
+                }
                 let (inlen, outlen) = json_unescape(&input[inpos..], &mut output[end + 2..])?;
                 // write len
                 put(output, end, (outlen as u16).to_ne_bytes().as_slice())?;
